@@ -59,8 +59,20 @@ def run(ctx):
             if prior_rejects:
                 key = "%s/after-rejected-%s" % (what, prior_rejects[-1]["op"])
         elif what == "notification-missing":
-            key = "notification-missing/%s" % ("destroyReady-filter-by-kind" if "destroyReady" in json.dumps(
-                [x for x in [t for t in traces if t[0] == tid][0][1] if x.get("ev") == "call"]) else "other")
+            t = [t for t in traces if t[0] == tid][0][1]
+            calls = [x for x in t[: lno - recs.index(t[0])] if x.get("ev") == "call" and x.get("res") == "ok"]
+            mixed = False
+            for c in calls:
+                for typ in ("tA", "tB"):
+                    kinds = {i["kind"] for i in c["ins"] if i["typ"] == typ}
+                    if "destroyReady" in kinds and kinds - {"destroyReady"}:
+                        mixed = True
+            if mixed:
+                key = "notification-missing/destroyReady-filter-by-kind"
+            elif any(c["op"] == "update" for c in calls):
+                key = "notification-missing/after-update-inputs"
+            else:
+                key = "notification-missing/routing"
         ctx.violation(key, "%s at line %d: %s" % (what, lno, det[:700]),
                       {"tid": tid, "line": lno, "behaviour": behs[int(tid.split("#")[1])],
                        "trace": [t for t in traces if t[0] == tid][0][1][:lno - [x for x in recs].index([t for t in traces if t[0] == tid][0][1][0]) + 1]})
